@@ -183,7 +183,37 @@ def check(ctx):
     good, hit = unreachable_without(g, okb, removed_nodes=[c_.bb for c_ in san_ap])
     ctx.require(R5, bool(san_ap) and good, "%s:%s" % (g.file, g.line), "every successful gen_certificate appended the SAN extension", [GEN, "san-appended"])
     xn = g.calls_to("openssl::x509::X509Extension::new", "openssl::x509::X509Extension::new_nid", "openssl::x509::X509Extension::new_from_der")
-    ctx.floor(R5, "X509Extension::new for the acmeIdentifier extension", len(xn), 1)
+    # evaluation-first: gen_certificate interpreted (every fallible call succeeds) on sample extension texts — which name and value
+    # reach X509Extension::new, is the extension appended, and are malformed texts refused
+    from ..absint import Val as _V, marker as _mk, run as _run, success_model as _sm, vstr as _vs
+    ext_rows = []
+    for text, want in (("1.3.6.1.5.5.7.1.31=critical,DER:04:20:aa", ("Ok", "1.3.6.1.5.5.7.1.31", "critical,DER:04:20:aa", True)), ("left=right", ("Ok", "left", "right", True)),
+                       ("a=b=c", ("Err",)), ("novalue", ("Err",))):
+        try:
+            r_ = _run(g, {1: _V("ref", _vs("example.org")), 2: _V("ref", _mk("KP")), 3: _V("ref", _mk("DG")), 4: _V("ref", _vs(text))}, _sm(g, None, skip_unknown_loops=True), max_steps=60000,
+                      follow=lambda cs: (cs.name or "").startswith("acme_common::crypto::openssl_certificate::"))
+        except Exception:
+            ext_rows = None
+            break
+        rv_ = r_.ret.deref() if r_.kind == "return" and r_.ret is not None else None
+        if rv_ is None or rv_.k != "adt" or not rv_.extra:
+            ext_rows = None
+            break
+        got = (rv_.extra[1],)
+        if rv_.extra[1] == "Ok":
+            xs = [a for c, a, res in r_.calls if (c.name or "").endswith("X509Extension::new")]
+            aps = [a for c, a, res in r_.calls if (c.name or "").endswith("X509Builder::append_extension") and any("X509Extension::new" in repr(x) for x in a)]
+            if len(xs) != 1 or len(xs[0]) < 4 or xs[0][2].deref().k != "str" or xs[0][3].deref().k != "str":
+                ext_rows = None
+                break
+            got = ("Ok", xs[0][2].deref().v, xs[0][3].deref().v, bool(aps))
+        ext_rows.append((text, got, want))
+    if ext_rows is not None:
+        for text, got, want in ext_rows:
+            ctx.require(R5, got == want, "%s:%s" % (g.file, g.line), "gen_certificate with the extension text %r: %s (expected %s)" % (text, got, want), [GEN, "extension-evaluated", text])
+        xn = []
+    else:
+        ctx.floor(R5, "X509Extension::new for the acmeIdentifier extension", len(xn), 1)
     for c_ in xn:
         name, val = arg_origins(c_, 2), arg_origins(c_, 3)
         SPLITS = ("core::str::<impl str>::split", "core::str::<impl str>::split_once", "core::str::<impl str>::splitn")
